@@ -39,7 +39,7 @@ LEVEL = 'model_checking'
 RULE = (
     'grid: axis alphabet (+-x +-y +-z, 8 space diagonals, generic axes of either z sign, '
     'nearly +-z, in-plane axis whose float norm is 1+ulp) x base x (radius, height) in '
-    '{1e-3, 0.2, 1.2, 1e3}^2 x unit; per cylinder 10 start positions x up to 16 directions '
+    '{1e-3, 0.2, 1.2, 1e3}^2 x unit; per cylinder 10 start positions x up to 28 directions (incl. parallel to the axis exactly, to 1 ulp and tilted by 1e-13..1e-5) '
     '(rays), 3 deterministic quadrature kinds (quad), and scenes = cylinder x beam x 14 '
     'detectors x 12 attenuation levels x 32 rigid motions / other-end description (trans); '
     'a configuration is non-trivial when the ray set meets the solid / the quadrature is '
@@ -55,9 +55,9 @@ ASSUMPTIONS = [
     'Monte-Carlo quadrature kind excluded (not deterministic)',
 ]
 BOUND = {
-    'quick': '34 axes x 3 bases x 16 (r,h) x unit m (+ mm on 2 bases): rays and all 3 quadrature kinds; '
+    'quick': '31 axes x 3 bases x unit m (+ mm on the far base): rays on 6 (r,h) pairs, all 3 quadrature kinds on all 16; '
     'transmission scenes: 4 (r,h) x 3 beams x 2 base axes x 3 kinds x 2 unit/cross-section styles x 32 motions',
-    'thorough': '34 axes x 3 bases x 16 (r,h) x {m, mm} (+ mixed radius unit): rays and quadrature; '
+    'thorough': '31 axes x 3 bases x 16 (r,h) x {m, mm} (+ mixed radius unit): rays and quadrature; '
     'transmission scenes: 16 (r,h) x 3 beams x 2 base axes x 3 kinds x 4 unit/cross-section styles x 32 motions',
 }
 REQUIRED_CLASSES = [
@@ -388,6 +388,8 @@ def _run_quad(case, rec):
         cond = 64 * EPS * (float(np.linalg.norm(base)) + r + h)
         if abs(m1[0]) > wtol * r + cond or abs(m1[1]) > wtol * r + cond or abs(m1[2]) > wtol * h + cond:
             rec.viol(site, 'first_moment', f'centroid - centre = {m1.tolist()} (local frame)', **sub)
+        if not ok.all():
+            continue  # second moments of a point set that left the solid add nothing
         m2 = (cen * W[:, None]).T @ cen / V
         condr = cond / r
         condh = cond / h
